@@ -614,6 +614,46 @@ def call_builtin(self, name, args, kwargs, st, node):
         v = self.view_of(a[0], st)
         yield View(v.length, lambda i: v.at(v.length - 1 - i), v.elt_t), st
         return
+    if name in ("deepcopy", "copy.deepcopy") and isinstance(a[0], Val) and isinstance(a[0].t, Dict) \
+            and isinstance(a[0].t.v, Set) and not a[0].t.v.k.mutable and not a[0].t.k.mutable:
+        # deepcopy of a dictionary of sets of immutable values: a new dictionary with the same keys whose values are NEW,
+        # pairwise distinct sets with the same members (bulk allocation along an enumeration of the keys)
+        d = a[0]
+        t, ts = d.t, d.t.v
+        kv = self.view_of(d, st)                      # enumeration of the keys (duplicate free, complete)
+        n = kv.length
+        st.assume(n >= 0)
+        new = self.alloc(st, t)
+        base = st.next_ref
+        st.next_ref = st.next_ref + n
+        r, kk, k2 = fresh("r", z3.IntSort()), fresh("k", t.k.sort()), fresh("k", t.k.sort())
+        dom0, val0 = self.dom(st, d), self.dvals(st, d)
+        # the copy of the set stored under key k is the new object base + idx(k); idx numbers the keys 0..n-1 (exists since
+        # the dictionary has n keys)
+        idx = z3.Function(str(fresh("dcidx", z3.IntSort())), t.k.sort(), z3.IntSort())
+        valn = fresh("dcval", val0.sort())
+        st.assume(z3.ForAll([kk], z3.Implies(z3.Select(dom0, kk), z3.And(0 <= idx(kk), idx(kk) < n,
+                                                                         z3.Select(valn, kk) == base + idx(kk)))))
+        st.assume(z3.ForAll([kk, k2], z3.Implies(z3.And(z3.Select(dom0, kk), z3.Select(dom0, k2), idx(kk) == idx(k2)), kk == k2)))
+        # well-typed heap: the sets stored in the original are allocated objects (older than the copies)
+        st.assume(z3.ForAll([kk], z3.Implies(z3.Select(dom0, kk), z3.And(0 <= z3.Select(val0, kk), z3.Select(val0, kk) < new.z))))
+        self.set_dom(st, new, dom0)
+        kvk = ("val", t.name(), t.k, t.v)
+        self.heap.set(st, kvk, z3.Store(self.heap.get(st, kvk), new.z, valn))
+        self.set_card(st, new, self.card(st, d))
+        sd0 = self.heap.get(st, ("dom", ts.name(), ts.k))
+        sc0 = self.heap.get(st, ("card", ts.name()))
+        sd1, sc1 = fresh("dcdom", sd0.sort()), fresh("dccard", sc0.sort())
+        outside = z3.Or(r < base, r >= base + n)
+        st.assume(z3.ForAll([r], z3.Implies(outside, z3.And(z3.Select(sd1, r) == z3.Select(sd0, r),
+                                                            z3.Select(sc1, r) == z3.Select(sc0, r)))))
+        st.assume(z3.ForAll([kk], z3.Implies(z3.Select(dom0, kk), z3.And(
+            z3.Select(sd1, base + idx(kk)) == z3.Select(sd0, z3.Select(val0, kk)),
+            z3.Select(sc1, base + idx(kk)) == z3.Select(sc0, z3.Select(val0, kk))))))
+        self.heap.set(st, ("dom", ts.name(), ts.k), sd1)
+        self.heap.set(st, ("card", ts.name()), sc1)
+        yield new, st
+        return
     if name in ("copy", "copy.copy"):
         x = a[0]
         if isinstance(x, Val) and isinstance(x.t, Obj):
